@@ -32,7 +32,7 @@ def ord_expr(o: dict) -> str:
     return f"order({o['k']}={o['x']!r})"
 
 
-def class_source(case: dict, hier: bool = False, resolver: bool = False) -> str:
+def class_source(case: dict, hier: bool = False, resolver: bool = False, malias: bool = False, annotated: bool = False) -> str:
     """With `hier` (no class-level override), the class is split anyway: the first fields and the FIRST serialized
     method are declared by a base class -- the order of the elements is the same."""
     elts = case["elts"]
@@ -40,7 +40,7 @@ def class_source(case: dict, hier: bool = False, resolver: bool = False) -> str:
     methods = [e for e in elts if e["method"]]
     base_ov, sub_ov = case.get("ovs", [[], []])
     split = (len(fields) + 1) // 2 if (base_ov or sub_ov or hier) else len(fields)
-    lines = ["from dataclasses import dataclass, field", "from apischema import order, serialized",
+    lines = ["from dataclasses import dataclass, field", "from typing import Annotated", "from apischema import order, serialized",
              "from apischema.graphql import resolver", ""]
 
     def ov_deco(ov):
@@ -52,13 +52,17 @@ def class_source(case: dict, hier: bool = False, resolver: bool = False) -> str:
 
     def fld(e):
         oe = ord_expr(e["ord"])
+        if annotated and oe:      # the ordering carried by the annotation instead of the field metadata
+            return f"    {e['name']}: Annotated[int, {oe}] = 0"
         return f"    {e['name']}: int = field(default=0" + (f", metadata={oe}" if oe else "") + ")"
 
     def meth(e):
         oe = ord_expr(e["ord"])
         if resolver:      # a resolver that is ALSO a serialized method: an element of the GraphQL view too
             return [f"    @resolver(serialized=True" + (f", order={oe}" if oe else "") + ")", f"    def {e['name']}(self) -> int:", "        return 1"]
-        return [f"    @serialized(" + (f"order={oe}" if oe else "") + ")", f"    def {e['name']}(self) -> int:", "        return 1"]
+        al = repr(e["name"].upper()) if malias else ""      # an alias different from the python name
+        args = ", ".join(x for x in (al, f"order={oe}" if oe else "") if x)
+        return [f"    @serialized({args})", f"    def {e['name']}(self) -> int:", "        return 1"]
 
     if base_ov or sub_ov or hier:
         base_methods = methods[:1] if hier else []
@@ -81,7 +85,7 @@ def class_source(case: dict, hier: bool = False, resolver: bool = False) -> str:
     return "\n".join(lines) + "\n"
 
 
-def views(case: dict, hier: bool = False, resolver: bool = False) -> Dict[str, Any]:
+def views(case: dict, hier: bool = False, resolver: bool = False, malias: bool = False, annotated: bool = False) -> Dict[str, Any]:
     """The four views of the order in the real code."""
     import apischema.cache
     from apischema import serialize
@@ -94,7 +98,7 @@ def views(case: dict, hier: bool = False, resolver: bool = False) -> Dict[str, A
     sys.modules[name] = mod
     out: Dict[str, Any] = {}
     try:
-        exec(compile(class_source(case, hier, resolver), f"<{name}>", "exec"), mod.__dict__)
+        exec(compile(class_source(case, hier, resolver, malias, annotated), f"<{name}>", "exec"), mod.__dict__)
         K = mod.K
         for view, fn in (("serialize", lambda: list(serialize(K, K()))),
                          ("serialization_schema", lambda: list(serialization_schema(K).get("properties", {}))),
@@ -111,6 +115,9 @@ def views(case: dict, hier: bool = False, resolver: bool = False) -> Dict[str, A
             out["graphql"] = "error:" + type(exc).__name__
     finally:
         sys.modules.pop(name, None)
+    if malias:     # back to the python names the ordering specification speaks of
+        back = {e["name"].upper(): e["name"] for e in case["elts"] if e["method"]}
+        out = {v: ([back.get(k, k) for k in ks] if isinstance(ks, list) else ks) for v, ks in out.items()}
     return out
 
 
@@ -138,13 +145,15 @@ def main() -> int:
         cases = [json.loads(json.loads(p)) for p in r.prints if p.startswith('"')]
         if not thorough and len(cases) > 6000:
             cases = rng.sample(cases, 6000)
-        variants = [(c, False, False) for c in cases]
+        variants = [(c, False, False, False, False) for c in cases]
         if NM >= 2 and not ov:       # the same specifications with the elements spread over a base class and the class
-            variants += [(c, True, False) for c in cases]
+            variants += [(c, True, False, False, False) for c in cases]
         if NM == 1 and N == 3 and not ov:   # ... and with the method declared as @resolver(serialized=True, order=...)
-            variants += [(c, False, True) for c in cases]
-        for c, hier, as_resolver in variants:
-            got = views(c, hier, as_resolver)
+            variants += [(c, False, True, False, False) for c in cases]
+            # ... with the method aliased, with the field orderings carried by Annotated[...]
+            variants += [(c, False, False, True, False) for c in cases] + [(c, False, False, False, True) for c in cases]
+        for c, hier, as_resolver, malias, annotated in variants:
+            got = views(c, hier, as_resolver, malias, annotated)
             n += 1
             distinct.add(json.dumps([c["elts"], c.get("ovs")]))
             for view, actual in got.items():
@@ -164,7 +173,7 @@ def main() -> int:
                                       finding_key="F-order-orphans")
                     continue
                 rep.violation(f"{view}: order {actual} instead of {expected} (well-formed={wf})",
-                              {"case": c, "view": view, "expected": expected, "actual": actual, "hier": hier, "resolver": as_resolver, "source": class_source(c, hier, as_resolver)})
+                              {"case": c, "view": view, "expected": expected, "actual": actual, "hier": hier, "resolver": as_resolver, "source": class_source(c, hier, as_resolver, malias, annotated)})
             if n % 1501 == 1:
                 rep.sample({"elts": c["elts"], "ovs": c.get("ovs"), "expected": c["order"], "views": got})
     # negative model check: the transcription of sort_by_order loses orphans / cycles
